@@ -222,6 +222,29 @@ func JoinQuery(t *rapid.T, tables []TableSpec, o JoinOpts, label string) Q {
 // on both sides one arriving record is joined with several stored ones. The caller puts the LIMIT on.
 func JoinLimitQuery(t *rapid.T, tables []TableSpec, label string) Q {
 	aliases := []string{"a", "b", "c"}
+	if len(tables) == 3 && rapid.IntRange(0, 2).Draw(t, label+"nested") == 1 {
+		// a JOIN (SELECT ... FROM b LEFT|RIGHT|OUTER JOIN c ON b.k = c.k) r ON a.k = r.rb0: the RIGHT input of the inner join
+		// retracts (an outer join pads, then retracts the padding when the match arrives)
+		sa, sb, sc := ScopeOfTable(tables[0], "a"), ScopeOfTable(tables[1], "b"), ScopeOfTable(tables[2], "c")
+		on2 := E{Op: "cmp", S: "=", Kind: "bool", Args: []E{{Op: "col", Kind: sb[0].Kind, Col: sb[0].Ref}, {Op: "col", Kind: sc[0].Kind, Col: sc[0].Ref}}}
+		kind := rapid.SampledFrom([]string{"left", "left", "outer", "right"}).Draw(t, label+"nestedkind")
+		sub := Q{From: Src{Kind: "table", Table: tables[1].File(), Alias: "b"}, Joins: []Join{{Type: kind, Src: Src{Kind: "table", Table: tables[2].File(), Alias: "c"}, On: &on2}}}
+		q := Q{From: Src{Kind: "table", Table: tables[0].File(), Alias: "a"}}
+		for ci, c := range sa {
+			q.Items = append(q.Items, Item{E: E{Op: "col", Kind: c.Kind, Col: c.Ref}, Alias: fmt.Sprintf("a%d", ci)})
+		}
+		for ci, c := range sb {
+			sub.Items = append(sub.Items, Item{E: E{Op: "col", Kind: c.Kind, Col: c.Ref}, Alias: fmt.Sprintf("rb%d", ci)})
+			q.Items = append(q.Items, Item{E: E{Op: "col", Kind: c.Kind, Col: fmt.Sprintf("r.rb%d", ci)}, Alias: fmt.Sprintf("b%d", ci)})
+		}
+		for ci, c := range sc {
+			sub.Items = append(sub.Items, Item{E: E{Op: "col", Kind: c.Kind, Col: c.Ref}, Alias: fmt.Sprintf("rc%d", ci)})
+			q.Items = append(q.Items, Item{E: E{Op: "col", Kind: c.Kind, Col: fmt.Sprintf("r.rc%d", ci)}, Alias: fmt.Sprintf("c%d", ci)})
+		}
+		on := E{Op: "cmp", S: "=", Kind: "bool", Args: []E{{Op: "col", Kind: sa[0].Kind, Col: sa[0].Ref}, {Op: "col", Kind: sb[0].Kind, Col: "r.rb0"}}}
+		q.Joins = []Join{{Type: "inner", Src: Src{Kind: "sub", Sub: &sub, Alias: "r"}, On: &on}}
+		return q
+	}
 	q := Q{From: Src{Kind: "table", Table: tables[0].File(), Alias: aliases[0]}}
 	for i, tbl := range tables {
 		sc := ScopeOfTable(tbl, aliases[i])
